@@ -739,15 +739,19 @@ func (it *Interp) assertOb(label string, c *Term) {
 	nc := it.St.Not(c)
 	// an obligation that a listed known finding excuses unconditionally does not constrain
 	// the rest of the path: what comes after it is still checked
-	always := false
+	always, hasExcuse := false, false
 	for _, e := range it.path.excuses {
-		if e.Cond.IsTrue() && matchLabel(e.Pattern, label) {
-			always = true
+		if matchLabel(e.Pattern, label) {
+			hasExcuse = true
+			if e.Cond.IsTrue() {
+				always = true
+			}
 		}
 	}
 	if c.IsFalse() {
+		before := len(j.Violations)
 		it.violation(label, "assertion constant false", nil)
-		if always {
+		if always || (hasExcuse && len(j.Violations) == before) {
 			j.Discharged++
 			it.trace = append(it.trace, decision{val: 2})
 			it.pos++
@@ -755,6 +759,7 @@ func (it *Interp) assertOb(label string, c *Term) {
 		}
 		panic(pathEnd{"assertfail", label})
 	}
+	excused := false
 	switch it.check(nc) {
 	case Unsat:
 		j.Discharged++
@@ -764,11 +769,18 @@ func (it *Interp) assertOb(label string, c *Term) {
 		if len(j.Violations) == before {
 			// excused (known finding) or already reported
 			j.Discharged++
+			excused = hasExcuse
 		}
 	default:
 		j.inconclusive("solver unknown on obligation " + label)
 	}
 	if always {
+		it.trace = append(it.trace, decision{val: 2})
+		it.pos++
+		return
+	}
+	if excused && !it.feasible(c) {
+		// it always fails here and every failure is a listed known finding: go on unconstrained
 		it.trace = append(it.trace, decision{val: 2})
 		it.pos++
 		return
